@@ -46,7 +46,7 @@ CFG = dict(
                                 "notification": 100, "keepalive": 30, "route-refresh": 70, "eor": 70,
                                 "wire-derived": 400, "wire-derived:flag-variants": 300,
                                 "wire-derived:from-2byte-session": 200, "fixed-point-evals": 1500})),
-    quick=[e1("all", "c04", "debug", 1, 40), dict(e1("all", "c04", "release", 1, 40), seed_offset=500)],
+    quick=[e1("all", "c04", "debug", 1, 120), dict(e1("all", "c04", "release", 1, 120), seed_offset=500)],
     thorough=[e1("dbg", "c04", "debug", 6, 200, scale=1.0),
               dict(e1("rel", "c04", "release", 8, 200, scale=1.0), seed_offset=100),
               dict(e1("asan", "c04", "release", 2, 200, flavor="asan", scale=0.1), seed_offset=200)],
